@@ -852,27 +852,30 @@ func c16FieldMap(c *Check) {
 			})
 		}
 	}
-	// R4b for SMTPError.Fields (index assignments in one function)
-	if fi := p.Func("framework/exterrors", "SMTPError", "Fields"); fi != nil {
-		hasCode, hasEnch := false, false
-		ast.Inspect(fi.Decl.Body, func(n ast.Node) bool {
-			if as, ok := n.(*ast.AssignStmt); ok {
-				for _, l := range as.Lhs {
-					if ix, ok := l.(*ast.IndexExpr); ok {
-						if k, ok := constString(fi.Info(), ix.Index); ok {
-							if k == "smtp_code" {
-								hasCode = true
-							}
-							if k == "smtp_enchcode" {
-								hasEnch = true
-							}
-						}
-					}
+	// R4b for SMTPError.Fields (index assignments in one function): both keys are stored on every path
+	if r := c.In("framework/exterrors", "SMTPError", "Fields"); r != nil {
+		storeOf := func(key string) []Pt {
+			return r.Assigns(func(l, _ ast.Expr) bool {
+				ix, ok := ast.Unparen(l).(*ast.IndexExpr)
+				if !ok {
+					return false
 				}
+				k, ok := constString(r.Info, ix.Index)
+				return ok && k == key
+			})
+		}
+		msg := ""
+		for _, k := range []string{"smtp_code", "smtp_enchcode"} {
+			pts := storeOf(k)
+			if len(pts) == 0 {
+				msg = "SMTPError.Fields does not store " + k
+				continue
 			}
-			return true
-		})
-		c.Hold("R4b", "exterrors.SMTPError.Fields", fi.Decl.Pos(), hasCode && hasEnch, "SMTPError.Fields stores only one of smtp_code / smtp_enchcode")
+			if ok, w := r.MustPass(r.Entry(), true, r.IsNormalExit, isPt(pts)); !ok {
+				msg = "SMTPError.Fields stores " + k + " only on some paths: an outer error then overrides one half of the pair of an inner error (e.g. 450 with 5.1.1): " + w
+			}
+		}
+		c.Hold("R4b", "exterrors.SMTPError.Fields", r.FI.Decl.Pos(), msg == "", msg)
 	} else {
 		c.Fail("R4b", "exterrors.SMTPError.Fields", token.NoPos, "anchor unresolved")
 	}
